@@ -204,6 +204,21 @@ def rule_inventory(ctx):
                 counts["bounds"] += 1
                 ctx.ok(R, "site:" + s.key, "discharged by the type invariant len <= N (len written only by %s, after their bounds checks)" % writers, loc=s.loc)
                 continue
+        if kind0 in ("index", "index_mut"):
+            t_ = s.body.blocks[s.bb]["term"]
+            ce_ = t_.get("func", {}).get("fn", {}) if t_.get("k") == "call" else {}
+            ga_ = " ".join(str(x) for x in (ce_.get("resolved_args") or ce_.get("args") or []))
+            if "RangeFull" in ga_:
+                counts["bounds"] += 1
+                ctx.ok(R, "site:" + s.key, "`x[..]`: indexing with the full range cannot fail", loc=s.loc)
+                continue
+            # a site in the redirect-following code: the obligation verdicts of its abstract interpretation (all paths of
+            # as_new_flow from a flow that holds a response, R13/R14/R15's run)
+            rr = _redirect_obligations(ctx)
+            if rr is not None and site in rr[0] and site not in rr[1]:
+                counts["bounds"] += 1
+                ctx.ok(R, "site:" + s.key, "bound obligation proven on every abstract path of as_new_flow", loc=s.loc)
+                continue
         if kind0 == "foreign":
             okf, whyf = foreign_discharge(prog, s)
             if okf:
@@ -219,6 +234,23 @@ def rule_inventory(ctx):
         if any(i.rule == R and i.key == s.key and i.status == "reviewed" for i in ctx.instances):
             counts["reviewed"] += 1
     ctx.extra_coverage["discharge_counts"] = counts
+
+
+def _redirect_obligations(ctx):
+    """(checked sites, undischarged sites) of the abstract interpretation of as_new_flow, or None"""
+    if getattr(ctx, "_c12_redirect_obl", "unset") != "unset":
+        return ctx._c12_redirect_obl
+    from . import rules_redirect
+    res = None
+    try:
+        run = rules_redirect._run_as_new_flow(ctx)
+        if run is not None:
+            I = run["interp"]
+            res = (set(I.checked_sites), set(I.undischarged))
+    except Exception:
+        res = None
+    ctx._c12_redirect_obl = res
+    return res
 
 
 def arrayvec_invariant(prog):
